@@ -1033,6 +1033,10 @@ def make_segment(data, mode, encoding=None):
         segment_mode = guessed_mode
     if segment_mode != consts.MODE_BYTE:
         segment_encoding = None
+    if segment_length and (segment_mode == consts.MODE_KANJI and not is_kanji(segment_data)
+                           or segment_mode == consts.MODE_HANZI and not is_hanzi(segment_data)):
+        raise ValueError(f'The provided mode "{get_mode_name(segment_mode)}" '
+                         f'is not applicable for {segment_data!r}')
     char_count = segment_length if segment_mode not in (consts.MODE_KANJI, consts.MODE_HANZI) else segment_length // 2
     buff = Buffer()
     append_bits = buff.append_bits
@@ -1336,6 +1340,27 @@ def is_kanji(data):
             return False
         if not 0x40 <= code & 0xff <= 0xfc or code & 0xff == 0x7f:
             # Not a valid Shift JIS trail byte: the Kanji mode cannot represent it
+            return False
+    return True
+
+
+def is_hanzi(data):
+    """\
+    Returns if the `data` can be encoded in "hanzi" mode.
+
+    :param bytes data: The data to check.
+    :rtype: bool
+    """
+    data_len = len(data)
+    if not data_len or data_len % 2:
+        return False
+    data_iter = iter(data)
+    for i in range(0, data_len, 2):
+        code = (next(data_iter) << 8) | next(data_iter)
+        if not (0xa1a1 <= code <= 0xaafe or 0xb0a1 <= code <= 0xfafe):
+            return False
+        if not 0xa1 <= code & 0xff <= 0xfe:
+            # Not a valid GB2312 trail byte: the Hanzi mode cannot represent it
             return False
     return True
 
